@@ -80,6 +80,18 @@ CHECKS = {
         text="Every constant, constant set (incl. superset_of chains, sets of enum literals) and enumeration of generated models is compared with the value obtained by executing the meta-model source with shim markers; <enum>_from_str is probed on literal values and neighbouring texts.",
         note="constant_bytearray cannot be written in the accepted subset (ast.Constant never holds a bytearray) and is therefore not exercised.",
     ),
+    "C11": dict(
+        category="exploration",
+        technique="real jsonschema target output judged by an independent validator (jsonschema Draft 2019-09, pattern on UTF-16 code units via Python re, node non-u RegExp cross-check) against SDK-serialised documents of instances on which Python evaluates every invariant to True; strict JSON parse, check_schema, own $ref resolution",
+        text="About 130 (quick) / 300+ (thorough) schemas from the schema-oriented MMG plus all corpus fixtures; 1-30k documents with values on the inferred bounds, astral pattern values, polymorphic nesting.",
+        note="Models on which the generators error or crash are counted and skipped; known findings: byte bounds applied to the base64 text, '.'/complemented sets vs astral characters.",
+    ),
+    "C12": dict(
+        category="exploration",
+        technique="single-violation twins of valid SDK documents (length min-1/max+1, string outside one pattern, list one too short/long; missing required property, missing/wrong modelType, mistyped value) judged by the independent validator; expected constraints from an independent recogniser over the meta-model, each twin confirmed by Python to break its invariant",
+        text="0.5-0.9k (quick) / 30k (thorough) constraint twins plus 2.4-4.6k (quick) / 176k (thorough) structural twins; keys carry kind, value kind, origin and guard form.",
+        note="Excluded per the statement: byte twins whose base64 length stays expressible, item-level tightenings by descendants; known finding: bytes minLength on base64 text.",
+    ),
     "C15": dict(
         category="exploration",
         technique="differential runtime oracle: real infer_for_schema.infer_constraints_by_class on the real symbol table vs Python's own evaluation of each recognised invariant sub-expression on shadow values of every length / every literal; second monitor on tightening_steps; error-justification monitor",
@@ -121,6 +133,12 @@ CHECKS = {
         technique="audit-hook event log (open/rename/remove/mkdir via sitecustomize) of real CLI subprocess histories + output/stdout/stderr differential between plain, cold-cache and warm-cache runs + pickle round-trip equivalence of the symbol table",
         text="Histories [plain], [plain, plain], [cached cold, cached warm, plain], [cached, edit, cached], [A, B, A], failing models, several targets; without the flag no path under the cache directory may be touched and all writes lie under --output_dir; with it outputs equal the plain run; an unpickled symbol table must dump equal and drive all 8 generators to byte-identical output.",
         note="Interpreter-internal writes excluded via PYTHONDONTWRITEBYTECODE; each CLI start costs seconds, so quick runs few histories.",
+    ),
+    "C24": dict(
+        category="fault_enumeration",
+        technique="token-passing scheduler over real worker processes running the real run.load_model(cache_model=True); every file-system step seen by an audit hook / os.stat / chunked pickle.dump / close is a scheduling and crash point; crash x {kill, OSError, KeyboardInterrupt} at every step with follow-up runs; DFS over all interleavings of 2 writers, preemption-bounded and sampled for 3 workers / two models; CLI stress with slow chunked writes",
+        text="Every step of the traced cold and warm cache protocol is crashed or failed and two follow-up runs are judged; the complete schedule tree of two concurrent writers (thorough, ~22k schedules) and bounded/sampled trees of three workers are executed on real processes; each pickle.load is checked by sha256 against the complete dumps written in that history.",
+        note="exhaustive=true only when all crash jobs and all tree shards finished; a crash is os._exit (no fsync/power-loss model); a lock-based protocol would show as inconclusive (watchdog), not as a violation.",
     ),
     "C25": dict(
         category="exploration",
